@@ -361,6 +361,7 @@ func c14Families(tier string) []engine.Family {
 		name string
 		mk   func() reflect.Value
 		evs  []model.Event
+		cuts []int // abandon only after these many events (nil: after every event)
 	}
 	tIfc := reflect.TypeOf((*interface{})(nil)).Elem()
 	innerSlice := reflect.SliceOf(gen.Inner)
@@ -368,38 +369,66 @@ func c14Families(tier string) []engine.Family {
 		model.Key("b"), model.ObjStart(-1, 0), model.Key("k"), model.Nil(), model.ObjEnd(), model.Key("x"), model.SInt(model.KInt8, 5), model.ObjEnd()}
 	arr := []model.Event{model.ArrStart(-1, 0), model.ObjStart(-1, 0), model.KeyRef("x"), model.SInt(model.KInt8, 1), model.KeyRef("unknown"), model.ArrStart(1, 0), model.StrRef("q"), model.ArrEnd(), model.ObjEnd(), model.ObjStart(0, 0), model.ObjEnd(), model.ArrEnd()}
 	docs := []doc{
-		{"interface<-object", func() reflect.Value { return reflect.New(tIfc) }, obj},
-		{"map[string]interface<-object", func() reflect.Value { return reflect.New(reflect.MapOf(reflect.TypeOf(""), tIfc)) }, obj},
-		{"c17S<-object", func() reflect.Value { return reflect.New(reflect.TypeOf(c17S{})) }, obj},
-		{"[]Inner<-array", func() reflect.Value { return reflect.New(innerSlice) }, arr},
-		{"[]interface<-array", func() reflect.Value { return reflect.New(reflect.SliceOf(tIfc)) }, arr},
-		{"**Inner<-object", func() reflect.Value { return reflect.New(reflect.PtrTo(reflect.PtrTo(gen.Inner))) }, []model.Event{model.ObjStart(-1, 0), model.KeyRef("x"), model.SInt(model.KInt8, 1), model.KeyRef("s"), model.StrRef("v"), model.ObjEnd()}},
-		{"[]int<-mismatch", func() reflect.Value { return reflect.New(reflect.SliceOf(reflect.TypeOf(0))) }, []model.Event{model.ArrStart(-1, 0), model.SInt(model.KInt8, 1), model.StrRef("boom"), model.ArrEnd()}},
+		{name: "interface<-object", mk: func() reflect.Value { return reflect.New(tIfc) }, evs: obj},
+		{name: "map[string]interface<-object", mk: func() reflect.Value { return reflect.New(reflect.MapOf(reflect.TypeOf(""), tIfc)) }, evs: obj},
+		{name: "c17S<-object", mk: func() reflect.Value { return reflect.New(reflect.TypeOf(c17S{})) }, evs: obj},
+		{name: "[]Inner<-array", mk: func() reflect.Value { return reflect.New(innerSlice) }, evs: arr},
+		{name: "[]interface<-array", mk: func() reflect.Value { return reflect.New(reflect.SliceOf(tIfc)) }, evs: arr},
+		{name: "**Inner<-object", mk: func() reflect.Value { return reflect.New(reflect.PtrTo(reflect.PtrTo(gen.Inner))) }, evs: []model.Event{model.ObjStart(-1, 0), model.KeyRef("x"), model.SInt(model.KInt8, 1), model.KeyRef("s"), model.StrRef("v"), model.ObjEnd()}},
+		{name: "[]int<-mismatch", mk: func() reflect.Value { return reflect.New(reflect.SliceOf(reflect.TypeOf(0))) }, evs: []model.Event{model.ArrStart(-1, 0), model.SInt(model.KInt8, 1), model.StrRef("boom"), model.ArrEnd()}},
 		// reflected maps and slices of structs whose elements set different subsets of their fields
-		{"map[string]Inner<-two-elements", func() reflect.Value { return reflect.New(reflect.MapOf(reflect.TypeOf(""), gen.Inner)) },
+		{name: "map[string]Inner<-two-elements", mk: func() reflect.Value { return reflect.New(reflect.MapOf(reflect.TypeOf(""), gen.Inner)) }, evs:
 			[]model.Event{model.ObjStart(2, 0), model.KeyRef("p"), model.ObjStart(-1, 0), model.KeyRef("x"), model.SInt(model.KInt8, 1), model.KeyRef("s"), model.StrRef("a"), model.ObjEnd(),
 				model.KeyRef("q"), model.ObjStart(-1, 0), model.KeyRef("s"), model.StrRef("b"), model.ObjEnd(), model.ObjEnd()}},
-		{"map[string]Inner<-partial-element", func() reflect.Value { return reflect.New(reflect.MapOf(reflect.TypeOf(""), gen.Inner)) },
+		{name: "map[string]Inner<-partial-element", mk: func() reflect.Value { return reflect.New(reflect.MapOf(reflect.TypeOf(""), gen.Inner)) }, evs:
 			[]model.Event{model.ObjStart(-1, 0), model.KeyRef("r"), model.ObjStart(-1, 0), model.KeyRef("s"), model.StrRef("c"), model.ObjEnd(), model.ObjEnd()}},
-		{"map[string]*Inner<-object", func() reflect.Value { return reflect.New(reflect.MapOf(reflect.TypeOf(""), reflect.PtrTo(gen.Inner))) },
+		{name: "map[string]*Inner<-object", mk: func() reflect.Value { return reflect.New(reflect.MapOf(reflect.TypeOf(""), reflect.PtrTo(gen.Inner))) }, evs:
 			[]model.Event{model.ObjStart(-1, 0), model.KeyRef("r"), model.ObjStart(-1, 0), model.KeyRef("x"), model.SInt(model.KInt8, 3), model.ObjEnd(), model.KeyRef("n"), model.Nil(), model.ObjEnd()}},
 	}
 	// a type whose meaning depends on its tags (renamed, hidden and inlined fields), first seen by the instance after earlier documents
 	tagged := reflect.StructOf([]reflect.StructField{{Name: "Name", Type: reflect.TypeOf(""), Tag: `struct:"nm"`}, {Name: "Secret", Type: reflect.TypeOf(""), Tag: `struct:"-"`},
 		{Name: "In", Type: gen.Inner, Tag: `struct:",inline"`}, {Name: "Opt", Type: reflect.PtrTo(reflect.TypeOf(0)), Tag: `struct:"o,omitempty"`}})
-	docs = append(docs, doc{"tagged<-object", func() reflect.Value { return reflect.New(tagged) },
+	docs = append(docs, doc{name: "tagged<-object", mk: func() reflect.Value { return reflect.New(tagged) }, evs:
 		[]model.Event{model.ObjStart(-1, 0), model.KeyRef("nm"), model.StrRef("abc"), model.KeyRef("secret"), model.StrRef("leak"), model.KeyRef("name"), model.StrRef("zzz"), model.KeyRef("x"), model.SInt(model.KInt8, 80), model.KeyRef("o"), model.SInt(model.KInt8, 1), model.ObjEnd()}})
+	// documents nested beyond the unfolder's inline stacks (32 entries; they grow at 33 and 65): abandoned around those depths
+	{
+		var deepEvs []model.Event
+		for i := 0; i < 40; i++ {
+			deepEvs = append(deepEvs, model.ArrStart(-1, 0))
+		}
+		deepEvs = append(deepEvs, model.StrRef("leaf"))
+		for i := 0; i < 40; i++ {
+			deepEvs = append(deepEvs, model.ArrEnd())
+		}
+		docs = append(docs, doc{name: "interface<-40 nested arrays", mk: func() reflect.Value { return reflect.New(tIfc) }, evs: deepEvs, cuts: []int{15, 16, 17, 31, 32, 33, 34, 40, 41, 42, 60, 80}})
+		// struct-in-slice nesting: type L struct{ K []L } 20 levels deep (two unfolder states per level)
+		lt := reflect.TypeOf(SeedRecSlice{})
+		var sEvs []model.Event
+		for i := 0; i < 20; i++ {
+			sEvs = append(sEvs, model.ObjStart(-1, 0), model.KeyRef("kids"), model.ArrStart(-1, 0))
+		}
+		for i := 0; i < 20; i++ {
+			sEvs = append(sEvs, model.ArrEnd(), model.ObjEnd())
+		}
+		docs = append(docs, doc{name: "SeedRecSlice<-20 nested levels", mk: func() reflect.Value { return reflect.New(lt) }, evs: sEvs, cuts: []int{30, 45, 48, 51, 60, 61, 70, 100}})
+	}
 	// ops: (doc, cut k) for every k including the complete document
 	type op struct {
 		d, k int
 	}
 	var ops []op
 	for di, d := range docs {
+		if d.cuts != nil {
+			for _, k := range d.cuts {
+				ops = append(ops, op{di, k})
+			}
+			continue
+		}
 		for k := 1; k <= len(d.evs); k++ {
 			ops = append(ops, op{di, k})
 		}
 	}
-	followUps := []int{0, 2, 3, 5, 8, 9, 10}
+	followUps := []int{0, 2, 3, 5, 8, 9, 10, 11, 12}
 	skip := map[string]bool{"reg": true, "userReg": true, "keyCache": true}
 	m := &engine.BFSModel{Name: "gotype.Unfolder(abandon+Reset)", NumOps: len(ops) + len(followUps),
 		OpName: func(i int) string {
@@ -471,11 +500,15 @@ func c14Families(tier string) []engine.Family {
 			fp := model.Fingerprint(u, model.FPOpts{Skip: skip, DepthsOnly: true})
 			return out, fp, model.Fingerprint(u, model.FPOpts{Skip: map[string]bool{}}), ""
 		}}
-	fams = append(fams, engine.Family{Name: "abandon-reset", Body: func(x *engine.Exec) {
-		x.Sample(func() interface{} {
-			return map[string]interface{}{"component": m.Name, "operations": m.NumOps, "example_history": []string{m.OpName(3), m.OpName(len(ops))}}
-		})
-		engine.BFS(x, m, engine.BFSOpts{UnprunedDepth: tierPick(tier, 1, 2), MaxDepth: tierPick(tier, 3, 4)})
-	}})
+	const parts = 12 // the search is split by the first operation of the history, the parts run in parallel
+	for part := 0; part < parts; part++ {
+		part := part
+		fams = append(fams, engine.Family{Name: fmt.Sprintf("abandon-reset-%02d", part), Body: func(x *engine.Exec) {
+			x.Sample(func() interface{} {
+				return map[string]interface{}{"component": m.Name, "operations": m.NumOps, "part": fmt.Sprintf("%d of %d (by first operation)", part+1, parts), "example_history": []string{m.OpName(3), m.OpName(len(ops))}}
+			})
+			engine.BFS(x, m, engine.BFSOpts{UnprunedDepth: tierPick(tier, 1, 2), MaxDepth: tierPick(tier, 3, 4), Part: part, Parts: parts})
+		}})
+	}
 	return fams
 }
